@@ -70,7 +70,7 @@ var Schemes = []string{"http", "https", "ws", "wss", "ftp"}
 
 // PatternTemplates are mask patterns; HOST is replaced by a host name.
 var PatternTemplates = []string{
-	"||HOST^", "||HOST", "||HOST/", "||HOST/ads", "||HOST^*banner", "|http://HOST/", "|https://HOST", "HOST",
+	"||HOST^", "||HOST", "||HOST/", "||HOST/ads", "||HOST^*banner", "|http://HOST/", "|https://HOST", "HOST", "https://HOST^", "https://HOST", "http://HOST^", "https://*.HOST^", "wss://HOST^", "://HOST^",
 	"HOST/ads", "://HOST", "http://HOST", "||HOST/*", "||HOST^$", ".HOST^", "||HOST:8080^",
 	"/ads/banner", "ads", "/ads^", "banner.js|", ".js|", "?q=", "=http", "/path/*/img", "^ads^", "*ads*",
 	"/Ads/b", "ADS.JS", "/abcde", "ababa", "babab", "/banner|", "|ws://", "|http", "://", "^", "*", "|", "||", "",
